@@ -1093,7 +1093,8 @@ def rebuild(x):
 	"""a fresh object with the same plain contents and names"""
 	if is_table(x):
 		return Table([rebuild(c) for c in x._underlying])
-	vals = [rebuild(e) if isinstance(e, Vector) else e for e in x._underlying]
+	from .recompute import fresh_value
+	vals = [rebuild(e) if isinstance(e, Vector) else fresh_value(e) for e in x._underlying]      # equal contents made of new objects (distinct NaN / float objects)
 	if x.name is not None:
 		return Vector(vals, name=x.name)
 	return Vector(vals)
